@@ -463,7 +463,7 @@ def eval_group(env, group, tier):
             m = re.search(r'(?ms)^%s = \[(.*?)\]' % cls, conf0)
             default_list = re.findall(r'"([^"]+)"', m.group(1))
             if group['override']:
-                active = ['.zzz', '.q1', default_list[0], '.tar.gz', 'akefile', '.a.b.c']
+                active = ['.zzz', '.q1', default_list[0], '.tar.gz', 'akefile', '.a.b.c', '.äxt', '.ÖD', '.Upp']
                 lst = ', '.join('"%s"' % e for e in active)
                 newconf = re.sub(r'(?ms)^%s = \[.*?\]' % cls, '%s = [%s]' % (cls, lst), conf0)
             else:
@@ -475,7 +475,7 @@ def eval_group(env, group, tier):
                 for n in ('f' + e, 'F' + e.upper(), 'm' + e.title(), e, bare, 'x' + e + '.txt', 'x' + bare, 'y.' + bare + 'z'):
                     tree[n] = F(0)
             for n in ('x.tar.gz', 'X.TAR.GZ', 'y.gz', 'tar.gz', '.tar.gz', 'Makefile', 'makefile', 'akefile', 'Makefile.in', 'q.a.b.c', 'a.b.c', 'q.b.c',
-                      'x.tar.gzz', 'xtar.gz'):
+                      'x.tar.gzz', 'xtar.gz', 'a.äxt', 'a.ÄXT', 'a.Äxt', 'b.öd', 'b.ÖD', 'c.upp', 'c.UPP', 'c.Upp', 'a.axt', 'clip.m\u212av'):
                 tree[n] = F(0)
             tree['dir' + default_list[0]] = D({})
             core.materialise(root, tree)
@@ -500,7 +500,7 @@ def eval_group(env, group, tier):
                     rows = query_rows(env, root, [cls])
                 finally:
                     env.set_config(conf0)
-            exp = {n: (b(any(n.lower().endswith(x) for x in active)),) for n in tree}
+            exp = {n: (b(any(n.lower().endswith(x.lower()) for x in active)),) for n in tree}
             row_outcomes(group, rows, exp, [cls], outs, 'extclass-' + ('override' if group['override'] else 'default'))
         elif kind == 'needle-align':
             # a needle (ASCII / multi-byte) straddling a buffer boundary at every byte alignment
